@@ -101,6 +101,23 @@ def h_de_crossover(P, n=1, d=1):
         P.oblige("de_crossover.fitness_is_objective_of_genome", _consistent(P, F, x))
 
 
+def h_cache(P):
+    """FunctionProblem(use_cache=True): a cached answer is only ever returned for the very same genome (hunt mode: real float64 genomes
+    that agree in numpy's printed digits, uninterpreted objective)."""
+    from pyhms.core import problem as pp
+
+    F = P.uf("F", 2)
+    maximize = P.bool("maximize")
+    prob = pp.EvalCountingProblem(pp.FunctionProblem(F, np.array([[-2.0, 2.0], [-2.0, 2.0]]), maximize, use_cache=True))
+    g1 = np.array([1.5000000174723578, -0.7500000269401779])
+    g2 = g1 + np.array([3e-12, -2e-12])
+    g3 = np.array([0.25, 0.5])
+    for i, g in enumerate((g1, g2, g3, g1, g2)):
+        v = prob.evaluate(g)
+        P.oblige("cache.value_is_objective_of_this_genome", same_bits(v, F(g)))
+        P.observe(f"v{i}", v)
+
+
 def h_engine(P, engine, n, d=1):
     from pyhms.demes.single_pop_eas import sea
     from pyhms.demes.single_pop_eas.de import DE
@@ -124,7 +141,13 @@ def h_engine(P, engine, n, d=1):
         eng = cls.create(problem=prob, mutation_std=0.5, p_mutation=0.5, p_crossover=0.7, k_elites=1)
         if engine == "sea-adaptive":
             kw = {"mutation_std": 0.7}
+    base_calls = F.n_calls()
     out = eng.run(parents, **kw)
+    evaluated = F.log()[base_calls:]
+    from ._pop import not_worse
+    for x, v in evaluated:
+        # selection never forgets the best evaluated point: nothing the objective returned is better than everything that was kept
+        P.oblige(f"{engine}.nothing_evaluated_is_lost", lor(*[not_worse(o.fitness, v, maximize) for o in out]))
     P.oblige(f"{engine}.size", len(out) == n)
     for x in out:
         P.oblige(f"{engine}.fitness_is_objective_of_genome", _consistent(P, F, x))
@@ -240,6 +263,7 @@ def cases(tier):
         cs.append(dict(name="engine.de-dither.n4", fn=h_engine, params=dict(engine="de-dither", n=4), weight=30, **R))
         for e in ("sea", "ga"):
             cs.append(dict(name=f"engine.{e}.n3", fn=h_engine, params=dict(engine=e, n=3), weight=40, optional=True, **dict(R, budget_s=2400)))
+    cs.append(dict(name="cache.close_genomes", fn=h_cache, params=dict(), **R))
     cs.append(dict(name="wrap.cma", fn=h_library_wrap, params=dict(which="cma"), **R))
     cs.append(dict(name="wrap.local", fn=h_library_wrap, params=dict(which="local"), **R))
     from .tstep import tree_cases
